@@ -114,16 +114,16 @@ func (q PathQuery) resolvePhiAt(v ssa.Value, n *pnode, depth int) (ssa.Value, *p
 			continue
 		}
 		if m.prev == nil {
-			return nil, nil
+			return x, m // the path starts in the phi's block: the phi stands for itself
 		}
 		for i, p := range x.Block().Preds {
 			if p == m.prev.b && i < len(x.Edges) {
 				return q.resolvePhiAt(x.Edges[i], m.prev, depth+1)
 			}
 		}
-		return nil, nil
+		return x, m
 	}
-	return nil, nil
+	return x, n // defined before the path starts
 }
 
 func (q PathQuery) resolvePhi(v ssa.Value, n *pnode, depth int) ssa.Value {
